@@ -250,7 +250,11 @@ fn check_negative(q: &Program, kind: &str, victim: &(usize, Target), st: &mut St
 
 impl Binding {
     fn case(&self, seed: u64, idx: u64, st: &mut Stats) -> Option<WtCase> {
-        gen_wt_case(seed, "c08", idx, &cfg(), st)
+        let mut c = gen_wt_case(seed, "c08", idx, &cfg(), st)?;
+        if idx % 2 == 1 {
+            with_trivia(&mut c, seed, "c08", idx);
+        }
+        Some(c)
     }
 }
 
